@@ -5,11 +5,10 @@ C01 — lemmas for the request/response model (`Model/Service.lean`).
 The reachable-state invariant `WF` is split in four groups, each a predicate on
 the components it talks about, with one lemma per elementary table/log
 operation; the transitions are compositions of those operations.
-  Qa  table structure: no duplicate keys, timer armed while non-empty, the entry
-      whose callback is running and the ids the expiry scan still has to do exist
+  Qa  table structure: no duplicate keys, timer armed while non-empty, the ids the
+      expiry scan still has to do exist
   Qb  instance bookkeeping: every instance's callback count is ≤ 1, 0 for
-      instances not yet issued and for pending entries whose callback is not the
-      one running
+      instances not yet issued and for every pending entry
   Qc  deadlines: entries carry `issue time + 30000`; every timeout callback came
       strictly after that; ids scheduled by the scan are overdue
   Qd  registered = issued minus removed
@@ -103,14 +102,14 @@ theorem cbCount_cons (e : Ev) (log : List Ev) (i : Nat) :
     cbCount (e :: log) i = cbCount log i + if isCbOf i e then 1 else 0 := by
   simp [cbCount, List.countP_cons]
 
-structure Qb (p : List (Nat × Wait)) (log : List Ev) (n : Nat) (run : Option Nat) : Prop where
+structure Qb (p : List (Nat × Wait)) (log : List Ev) (n : Nat) : Prop where
   instLt : ∀ id w, (id, w) ∈ p → w.inst < n
   instInj : ∀ id w id' w', (id, w) ∈ p → (id', w') ∈ p → w.inst = w'.inst → id = id'
   cbFresh : ∀ i, n ≤ i → cbCount log i = 0
   cbOnce : ∀ i, cbCount log i ≤ 1
-  cbPend : ∀ id w, (id, w) ∈ p → cbCount log w.inst = if run = some id then 1 else 0
+  cbPend : ∀ id w, (id, w) ∈ p → cbCount log w.inst = 0
 
-theorem Qb.log {p log n run} (h : Qb p log n run) (e : Ev) (he : ∀ i, isCbOf i e = false) : Qb p (e :: log) n run := by
+theorem Qb.log {p log n} (h : Qb p log n) (e : Ev) (he : ∀ i, isCbOf i e = false) : Qb p (e :: log) n := by
   constructor
   · exact h.instLt
   · exact h.instInj
@@ -118,7 +117,7 @@ theorem Qb.log {p log n run} (h : Qb p log n run) (e : Ev) (he : ∀ i, isCbOf i
   · intro i; simp [cbCount_cons, he, h.cbOnce i]
   · intro id w hm; simp [cbCount_cons, he, h.cbPend id w hm]
 
-theorem Qb.erase {p log n run} (h : Qb p log n run) (id : Nat) : Qb (del id p) log n run := by
+theorem Qb.erase {p log n} (h : Qb p log n) (id : Nat) : Qb (del id p) log n := by
   constructor
   · intro id' w hm; exact h.instLt id' w (mem_del.1 hm).1
   · intro a w b w' h1 h2; exact h.instInj a w b w' (mem_del.1 h1).1 (mem_del.1 h2).1
@@ -126,18 +125,7 @@ theorem Qb.erase {p log n run} (h : Qb p log n run) (id : Nat) : Qb (del id p) l
   · exact h.cbOnce
   · intro id' w hm; exact h.cbPend id' w (mem_del.1 hm).1
 
-theorem Qb.runNone {p log n id} (h : Qb p log n (some id)) (hf : ∀ w, (id, w) ∉ p) : Qb p log n none := by
-  constructor
-  · exact h.instLt
-  · exact h.instInj
-  · exact h.cbFresh
-  · exact h.cbOnce
-  · intro id' w hm
-    have := h.cbPend id' w hm
-    have hne : id ≠ id' := by intro e; subst e; exact hf w hm
-    simp_all
-
-theorem Qb.skip {p log n run} (h : Qb p log n run) : Qb p log (n + 1) run := by
+theorem Qb.skip {p log n} (h : Qb p log n) : Qb p log (n + 1) := by
   constructor
   · intro id w hm; have := h.instLt id w hm; omega
   · exact h.instInj
@@ -145,8 +133,8 @@ theorem Qb.skip {p log n run} (h : Qb p log n run) : Qb p log (n + 1) run := by
   · exact h.cbOnce
   · exact h.cbPend
 
-theorem Qb.ins {p log n run} (h : Qb p log n run) (id d a : Nat) (c : Bool) (hf : ∀ w, (id, w) ∉ p)
-    (hr : run ≠ some id) : Qb ((id, ⟨d, c, n, a⟩) :: p) log (n + 1) run := by
+theorem Qb.ins {p log n} (h : Qb p log n) (id d a : Nat) (c : Bool) (hf : ∀ w, (id, w) ∉ p) :
+    Qb ((id, ⟨d, c, n, a⟩) :: p) log (n + 1) := by
   constructor
   · intro id' w hm
     simp only [List.mem_cons, Prod.mk.injEq] at hm
@@ -165,41 +153,37 @@ theorem Qb.ins {p log n run} (h : Qb p log n run) (id d a : Nat) (c : Bool) (hf 
   · intro id' w hm
     simp only [List.mem_cons, Prod.mk.injEq] at hm
     rcases hm with ⟨rfl, rfl⟩ | hm
-    · have := h.cbFresh n (Nat.le_refl _)
-      simp [this]
-      exact fun e => hr e
+    · exact h.cbFresh n (Nat.le_refl _)
     · exact h.cbPend id' w hm
 
-theorem Qb.cbPending {p log n id w} (h : Qb p log n none) (hn : (keys p).Nodup) (hm : (id, w) ∈ p) (o : Outcome) (t : Nat) :
-    Qb p (.cb w.inst id o t :: log) n (some id) := by
+/-- the entry `(id, w)` has just been removed; its callback is invoked -/
+theorem Qb.complete {p log n id w} (h : Qb p log n) (hn : (keys p).Nodup) (hm : (id, w) ∈ p) (o : Outcome) (t : Nat) :
+    Qb (del id p) (.cb w.inst id o t :: .done w.inst id :: log) n := by
   have h0 := h.cbPend id w hm
-  simp at h0
+  have hlt := h.instLt id w hm
+  have h1 := (h.erase id).log (.done w.inst id) (by intro i; rfl)
+  have hcnt : cbCount (.done w.inst id :: log) w.inst = 0 := by simp [cbCount_cons, isCbOf, h0]
   constructor
-  · exact h.instLt
-  · exact h.instInj
+  · exact h1.instLt
+  · exact h1.instInj
   · intro i hi
-    have := h.instLt id w hm
     have hne : w.inst ≠ i := by omega
     simp [cbCount_cons, isCbOf, hne, h.cbFresh i hi]
   · intro i
-    simp only [cbCount_cons, isCbOf, beq_iff_eq]
+    have := h1.cbOnce i
+    simp only [cbCount_cons (.cb w.inst id o t), isCbOf, beq_iff_eq]
     split
     · rename_i e; subst e; omega
-    · have := h.cbOnce i; omega
+    · omega
   · intro id' w' hm'
-    have h1 := h.cbPend id' w' hm'
-    simp at h1
-    simp only [cbCount_cons, isCbOf, beq_iff_eq, Option.some.injEq]
-    by_cases e : id = id'
-    · subst e
-      have := mem_unique hn hm hm'
-      subst this
-      simp [h1]
-    · have : w.inst ≠ w'.inst := fun e3 => e (h.instInj id w id' w' hm hm' e3)
-      simp [this, h1, e]
+    obtain ⟨hm1, hne⟩ := mem_del.1 hm'
+    have : w.inst ≠ w'.inst := fun e3 => hne (h.instInj id w id' w' hm hm1 e3).symm
+    have h2 := h1.cbPend id' w' hm'
+    simp only [cbCount_cons (.cb w.inst id o t), isCbOf, beq_iff_eq, this, ↓reduceIte]
+    omega
 
-theorem Qb.cbFreshInst {p log n run} (h : Qb p log n run) (id : Nat) (o : Outcome) (t : Nat) :
-    Qb p (.cb n id o t :: log) (n + 1) run := by
+theorem Qb.cbFreshInst {p log n} (h : Qb p log n) (id : Nat) (o : Outcome) (t : Nat) :
+    Qb p (.cb n id o t :: log) (n + 1) := by
   constructor
   · intro id' w hm; have := h.instLt id' w hm; omega
   · exact h.instInj
@@ -216,18 +200,16 @@ theorem Qb.cbFreshInst {p log n run} (h : Qb p log n run) (id : Nat) (o : Outcom
     have hne : n ≠ w.inst := by omega
     simp [cbCount_cons, isCbOf, hne, h.cbPend id' w hm]
 
-/-! ### group A: table structure, timer, what the goroutine is in the middle of -/
+/-! ### group A: table structure, timer, the ids the scan in progress still has to do -/
 
-structure Qa (p : List (Nat × Wait)) (armed : Bool) (run : Option Nat) (rest : List Nat) : Prop where
+structure Qa (p : List (Nat × Wait)) (armed : Bool) (rest : List Nat) : Prop where
   nodup : (keys p).Nodup
   armedP : p ≠ [] → armed = true
-  runKey : ∀ id, run = some id → id ∈ keys p
   restKeys : ∀ r, r ∈ rest → r ∈ keys p
   restNodup : rest.Nodup
-  runRest : ∀ id, run = some id → id ∉ rest
 
-theorem Qa.ins {p armed run rest} (h : Qa p armed run rest) (id : Nat) (w : Wait) (hf : ∀ w, (id, w) ∉ p) :
-    Qa ((id, w) :: p) true run rest := by
+theorem Qa.ins {p armed rest} (h : Qa p armed rest) (id : Nat) (w : Wait) (hf : ∀ w, (id, w) ∉ p) :
+    Qa ((id, w) :: p) true rest := by
   constructor
   · simp only [keys, List.map_cons, List.nodup_cons]
     refine ⟨?_, h.nodup⟩
@@ -235,10 +217,8 @@ theorem Qa.ins {p armed run rest} (h : Qa p armed run rest) (id : Nat) (w : Wait
     obtain ⟨w', hw'⟩ := mem_keys.1 hm
     exact hf w' hw'
   · intro _; rfl
-  · intro x hx; simp only [keys, List.map_cons, List.mem_cons]; exact Or.inr (h.runKey x hx)
   · intro r hr; simp only [keys, List.map_cons, List.mem_cons]; exact Or.inr (h.restKeys r hr)
   · exact h.restNodup
-  · exact h.runRest
 
 theorem mem_keys_del {id r : Nat} {p : List (Nat × Wait)} (h : r ∈ keys p) (hne : r ≠ id) : r ∈ keys (del id p) := by
   obtain ⟨w, hw⟩ := mem_keys.1 h
@@ -247,54 +227,22 @@ theorem mem_keys_del {id r : Nat} {p : List (Nat × Wait)} (h : r ∈ keys p) (h
 theorem del_ne_nil {id : Nat} {p : List (Nat × Wait)} (h : del id p ≠ []) : p ≠ [] := by
   intro e; subst e; simp [del] at h
 
-theorem Qa.erase {p armed run rest} (h : Qa p armed run rest) (id : Nat) (hr : id ∉ rest) (hrun : run ≠ some id) :
-    Qa (del id p) armed run rest := by
+theorem Qa.erase {p armed rest} (h : Qa p armed rest) (id : Nat) (hr : id ∉ rest) : Qa (del id p) armed rest := by
   constructor
   · exact nodup_del h.nodup
   · intro hne; exact h.armedP (del_ne_nil hne)
-  · intro x hx; exact mem_keys_del (h.runKey x hx) (by intro e; subst e; exact hrun hx)
   · intro r hr'; exact mem_keys_del (h.restKeys r hr') (by intro e; subst e; exact hr hr')
   · exact h.restNodup
-  · exact h.runRest
 
-theorem Qa.delRun {p armed id rest} (h : Qa p armed (some id) rest) : Qa (del id p) armed none rest := by
-  constructor
-  · exact nodup_del h.nodup
-  · intro hne; exact h.armedP (del_ne_nil hne)
-  · intro x hx; cases hx
-  · intro r hr'; exact mem_keys_del (h.restKeys r hr') (fun e => h.runRest id rfl (e ▸ hr'))
-  · exact h.restNodup
-  · intro x hx; cases hx
+theorem Qa.setRest {p armed rest} (h : Qa p armed []) (hk : ∀ r, r ∈ rest → r ∈ keys p) (hn : rest.Nodup) :
+    Qa p armed rest := ⟨h.nodup, h.armedP, hk, hn⟩
 
-theorem Qa.armedTrue {p armed run rest} (h : Qa p armed run rest) : Qa p true run rest :=
-  ⟨h.nodup, fun _ => rfl, h.runKey, h.restKeys, h.restNodup, h.runRest⟩
+theorem Qa.tail {p armed id rest} (h : Qa p armed (id :: rest)) : Qa p armed rest :=
+  ⟨h.nodup, h.armedP, fun r hr => h.restKeys r (List.mem_cons_of_mem _ hr), (List.nodup_cons.1 h.restNodup).2⟩
 
-theorem Qa.setRest {p armed rest} (h : Qa p armed none []) (hk : ∀ r, r ∈ rest → r ∈ keys p) (hn : rest.Nodup) :
-    Qa p armed none rest := by
-  refine ⟨h.nodup, h.armedP, h.runKey, hk, hn, ?_⟩
-  intro _ hx; cases hx
-
-theorem Qa.tail {p armed id rest} (h : Qa p armed none (id :: rest)) : Qa p armed none rest := by
-  refine ⟨h.nodup, h.armedP, h.runKey, fun r hr => h.restKeys r (List.mem_cons_of_mem _ hr),
-   (List.nodup_cons.1 h.restNodup).2, ?_⟩
-  intro _ hx; cases hx
-
-theorem Qa.pick {p armed id rest} (h : Qa p armed none (id :: rest)) : Qa p armed (some id) rest := by
-  refine ⟨h.nodup, h.armedP, ?_, fun r hr => h.restKeys r (List.mem_cons_of_mem _ hr),
-   (List.nodup_cons.1 h.restNodup).2, ?_⟩
-  · intro x hx; cases hx; exact h.restKeys _ (List.mem_cons_self ..)
-  · intro x hx; cases hx; exact (List.nodup_cons.1 h.restNodup).1
-
-theorem Qa.nil {p armed rest} (h : Qa p armed none rest) : Qa p armed none [] := by
-  refine ⟨h.nodup, h.armedP, h.runKey, ?_, List.nodup_nil, ?_⟩
-  · intro _ hr; cases hr
-  · intro _ hx; cases hx
-
-theorem Qa.runOf {p armed id} (h : Qa p armed none []) (hk : id ∈ keys p) : Qa p armed (some id) [] := by
-  refine ⟨h.nodup, h.armedP, ?_, ?_, List.nodup_nil, ?_⟩
-  · intro x hx; cases hx; exact hk
-  · intro _ hr; cases hr
-  · intro _ _ hr; cases hr
+theorem Qa.nil {p armed rest} (h : Qa p armed rest) : Qa p armed [] := by
+  refine ⟨h.nodup, h.armedP, ?_, List.nodup_nil⟩
+  intro _ hr; cases hr
 
 /-! ### group C: deadlines -/
 
@@ -494,26 +442,45 @@ theorem Qd.finish {p log n id w} (h : Qd p log n) (hn : (keys p).Nodup)
     · exact a id' hc
 
 
-/-! ### the invariant -/
+/-! ### group F: the entry is removed before its callback runs -/
 
-def running (s : State) : Option Nat :=
-  match s.base with
-  | .idle => none
-  | .inResp id => some id
-  | .inTick id _ => some id
+structure Qf (log : List Ev) : Prop where
+  cbDone : ∀ i id o t, Ev.cb i id o t ∈ log → Ev.done i id ∈ log
+
+theorem Qf.log {log} (h : Qf log) (e : Ev) (he : ∀ i id o t, e ≠ .cb i id o t) : Qf (e :: log) := by
+  constructor
+  intro i id o t hm
+  simp only [List.mem_cons] at hm
+  rcases hm with hm | hm
+  · exact absurd hm.symm (he i id o t)
+  · exact List.mem_cons_of_mem _ (h.cbDone i id o t hm)
+
+theorem Qf.cb {log} (h : Qf log) (i id : Nat) (o : Outcome) (t : Nat) (hd : Ev.done i id ∈ log) :
+    Qf (.cb i id o t :: log) := by
+  constructor
+  intro i' id' o' t' hm
+  simp only [List.mem_cons] at hm
+  rcases hm with hm | hm
+  · injection hm with e1 e2 _ _
+    subst e1 e2
+    exact List.mem_cons_of_mem _ hd
+  · exact List.mem_cons_of_mem _ (h.cbDone i' id' o' t' hm)
+
+/-! ### the invariant -/
 
 def restOf (s : State) : List Nat :=
   match s.base with
   | .inTick _ rest => rest
   | _ => []
 
-structure WFx (s : State) (run : Option Nat) (rest : List Nat) : Prop where
-  a : Qa s.pending s.armed run rest
-  b : Qb s.pending s.log s.ninst run
+structure WFx (s : State) (rest : List Nat) : Prop where
+  a : Qa s.pending s.armed rest
+  b : Qb s.pending s.log s.ninst
   c : Qc s.pending s.log s.now rest
   d : Qd s.pending s.log s.ninst
+  f : Qf s.log
 
-def WF (s : State) : Prop := WFx s (running s) (restOf s)
+def WF (s : State) : Prop := WFx s (restOf s)
 
 theorem finish_eq {s : State} {id : Nat} {w : Wait} (h : find id s.pending = some w) :
     finish s id = { s with pending := del id s.pending, log := .done w.inst id :: s.log } := by
@@ -522,17 +489,34 @@ theorem finish_eq {s : State} {id : Nat} {w : Wait} (h : find id s.pending = som
 theorem finish_collided (s : State) (id : Nat) : (finish s id).collided = s.collided := by
   unfold finish; split <;> rfl
 
-theorem WFx.finish {s : State} {run : Option Nat} {rest : List Nat} {id : Nat} {w : Wait}
-    (h : WFx s run rest) (hf : find id s.pending = some w) (hr : id ∉ rest) (hrun : run = none ∨ run = some id) :
-    WFx (finish s id) none rest := by
+theorem WFx.tail {s : State} {id : Nat} {rest : List Nat} (h : WFx s (id :: rest)) : WFx s rest :=
+  ⟨h.a.tail, h.b, h.c.sub (fun r hr => List.mem_cons_of_mem _ hr), h.d, h.f⟩
+
+theorem WFx.nil {s : State} {rest : List Nat} (h : WFx s rest) : WFx s [] :=
+  ⟨h.a.nil, h.b, h.c.sub (by intro _ hr; cases hr), h.d, h.f⟩
+
+theorem WFx.finish {s : State} {rest : List Nat} {id : Nat} {w : Wait}
+    (h : WFx s rest) (hf : find id s.pending = some w) (hr : id ∉ rest) : WFx (finish s id) rest := by
   have hm := find_some_mem hf
   rw [finish_eq hf]
-  have hnot : ∀ w', (id, w') ∉ del id s.pending := fun w' hw' => (mem_del.1 hw').2 rfl
-  rcases hrun with rfl | rfl
-  · exact ⟨h.a.erase id hr (by simp), (h.b.erase id).log _ (by intro i; rfl),
-      (h.c.erase id).log _ (by intro _ _ _ _ e; cases e), h.d.finish h.a.nodup h.b.instInj h.b.instLt hm⟩
-  · exact ⟨h.a.delRun, ((h.b.erase id).log _ (by intro i; rfl)).runNone hnot,
-      (h.c.erase id).log _ (by intro _ _ _ _ e; cases e), h.d.finish h.a.nodup h.b.instInj h.b.instLt hm⟩
+  exact ⟨h.a.erase id hr, (h.b.erase id).log _ (by intro i; rfl),
+    (h.c.erase id).log _ (by intro _ _ _ _ e; cases e), h.d.finish h.a.nodup h.b.instInj h.b.instLt hm,
+    h.f.log _ (by intro _ _ _ _ e; cases e)⟩
+
+/-- `delete`, then the callback -/
+theorem WFx.complete {s : State} {rest : List Nat} {id : Nat} {w : Wait} (h : WFx s rest)
+    (hf : find id s.pending = some w) (hr : id ∉ rest) (o : Outcome) (t : Nat) (b : Base) (n : Nat)
+    (ht : o = .timeout → w.deadline < t) :
+    WFx { s with pending := del id s.pending, base := b, nest := n,
+                 log := .cb w.inst id o t :: .done w.inst id :: s.log } rest := by
+  have hm := find_some_mem hf
+  obtain ⟨t0, hd, hiss⟩ := h.c.issuedP id w hm
+  refine ⟨h.a.erase id hr, h.b.complete h.a.nodup hm o t, ?_, ?_, ?_⟩
+  · exact ((h.c.erase id).log _ (by intro _ _ _ _ e; cases e)).cb _ _ _ _
+      ⟨t0, List.mem_cons_of_mem _ hiss, fun e => by have := ht e; omega⟩
+  · exact (h.d.finish h.a.nodup h.b.instInj h.b.instLt hm).log _ (by intro _ _ e; injection e)
+      (by intro _ _ _ e; injection e)
+  · exact (h.f.log _ (by intro _ _ _ _ e; cases e)).cb _ _ _ _ (List.mem_cons_self ..)
 
 theorem tickLoop_cons_none {s : State} {id : Nat} {rest : List Nat} (h : find id s.pending = none) :
     tickLoop s (id :: rest) = { s with base := .idle, collided := true } := by
@@ -540,20 +524,22 @@ theorem tickLoop_cons_none {s : State} {id : Nat} {rest : List Nat} (h : find id
 
 theorem tickLoop_cons_cb {s : State} {id : Nat} {rest : List Nat} {w : Wait} (h : find id s.pending = some w)
     (hc : w.hasCb = true) :
-    tickLoop s (id :: rest) = { s with base := .inTick id rest, log := .cb w.inst id .timeout s.now :: s.log } := by
-  simp [tickLoop, h, hc]
+    tickLoop s (id :: rest) =
+      { s with pending := del id s.pending, base := .inTick w.inst rest, nest := s.nest,
+               log := .cb w.inst id .timeout s.now :: .done w.inst id :: s.log } := by
+  simp [tickLoop, h, hc, finish_eq h]
 
 theorem tickLoop_cons_nocb {s : State} {id : Nat} {rest : List Nat} {w : Wait} (h : find id s.pending = some w)
     (hc : w.hasCb = false) : tickLoop s (id :: rest) = tickLoop (finish s id) rest := by
   simp [tickLoop, h, hc]
 
-theorem tickLoop_WF : ∀ (rest : List Nat) (s : State), WFx s none rest →
+theorem tickLoop_WF : ∀ (rest : List Nat) (s : State), WFx s rest →
     (tickLoop s rest).collided = false → WF (tickLoop s rest) := by
   intro rest
   induction rest with
   | nil =>
     intro s h _
-    exact ⟨h.a.nil, h.b, h.c.sub (by intro _ hr; cases hr), h.d⟩
+    exact ⟨h.a, h.b, h.c, h.d, h.f⟩
   | cons id rest ih =>
     intro s h hc
     cases hf : find id s.pending with
@@ -565,14 +551,10 @@ theorem tickLoop_WF : ∀ (rest : List Nat) (s : State), WFx s none rest →
       | true =>
         rw [tickLoop_cons_cb hf hcb]
         have hd := h.c.restDue id (List.mem_cons_self ..) w hm
-        exact ⟨h.a.pick, h.b.cbPending h.a.nodup hm _ _,
-          (h.c.cbPending hm _ _ (fun _ => hd)).sub (fun r hr => List.mem_cons_of_mem _ hr),
-          h.d.log _ (by intro _ _ e; injection e) (by intro _ _ _ e; injection e)⟩
+        exact h.tail.complete hf hnr .timeout s.now _ _ (fun _ => hd)
       | false =>
         rw [tickLoop_cons_nocb hf hcb] at hc ⊢
-        have h' : WFx s none rest := ⟨h.a.tail, h.b, h.c.sub (fun r hr => List.mem_cons_of_mem _ hr), h.d⟩
-        exact ih _ (h'.finish hf hnr (Or.inl rfl)) hc
-
+        exact ih _ (h.tail.finish hf hnr) hc
 
 /-! ### pickOrder / dueIds -/
 
@@ -633,11 +615,13 @@ theorem issue_req_fail (s : State) (c : Bool) (hf : ∀ w, (allocId s.M s.nextId
 
 /-! ### every transition preserves the invariant -/
 
-theorem WF.of_idle {s : State} (hb : s.base = .idle) (h : WFx s none []) : WF s := by
-  unfold WF running restOf; rw [hb]; exact h
+theorem WF.of_idle {s : State} (hb : s.base = .idle) (h : WFx s []) : WF s := by
+  unfold WF restOf; rw [hb]; exact h
 
-theorem WF.idle {s : State} (h : WF s) (hb : s.base = .idle) : WFx s none [] := by
-  unfold WF running restOf at h; rw [hb] at h; exact h
+theorem WF.idle {s : State} (h : WF s) (hb : s.base = .idle) : WFx s [] := by
+  unfold WF restOf at h; rw [hb] at h; exact h
+
+theorem WF.toNil {s : State} (h : WF s) : WFx s [] := WFx.nil h
 
 theorem finish_base (s : State) (id : Nat) : (finish s id).base = s.base := by
   unfold finish; split <;> rfl
@@ -665,16 +649,13 @@ theorem issue_WF {s : State} (h : WF s) (r o c : Bool) (hc : (issue s r o c).col
     cases o with
     | true =>
       exact ⟨h.a, h.b.skip.log _ (by intro i; rfl), h.c.log _ (by intro _ _ _ _ e; injection e),
-        h.d.skip.log _ (by intro _ _ e; injection e) (by intro _ _ _ e; injection e)⟩
-    | false => exact ⟨h.a, h.b.skip, h.c, h.d.skip⟩
+        h.d.skip.log _ (by intro _ _ e; injection e) (by intro _ _ _ e; injection e),
+        h.f.log _ (by intro _ _ _ _ e; injection e)⟩
+    | false => exact ⟨h.a, h.b.skip, h.c, h.d.skip, h.f⟩
   | true =>
     rw [issue_req_collided] at hc
     simp only [Bool.or_eq_false_iff] at hc
     have hf := hasKey_false.1 hc.2
-    have hrun : running s ≠ some (allocId s.M s.nextId) := by
-      intro e
-      obtain ⟨w, hw⟩ := mem_keys.1 (h.a.runKey _ e)
-      exact hf w hw
     have hrest : allocId s.M s.nextId ∉ restOf s := by
       intro e
       obtain ⟨w, hw⟩ := mem_keys.1 (h.a.restKeys _ e)
@@ -683,17 +664,20 @@ theorem issue_WF {s : State} (h : WF s) (r o c : Bool) (hc : (issue s r o c).col
     | true =>
       rw [issue_req_ok s c hf]
       have a := h.a.ins _ (newWait s c) hf
-      have b := (h.b.ins _ (s.now + reqTimeout) (s.nalloc + 1) c hf hrun).log (.issued s.ninst (allocId s.M s.nextId) s.now) (by intro i; rfl)
+      have b := (h.b.ins _ (s.now + reqTimeout) (s.nalloc + 1) c hf).log (.issued s.ninst (allocId s.M s.nextId) s.now) (by intro i; rfl)
       have c' := h.c.ins _ s.ninst (s.nalloc + 1) c hrest
       have d := h.d.ins h.b.instLt (allocId s.M s.nextId) (s.now + reqTimeout) (s.nalloc + 1) s.now c
+      have f := (h.f.log (.issued s.ninst (allocId s.M s.nextId) s.now) (by intro _ _ _ _ e; injection e)).log
+        (.sent s.ninst (allocId s.M s.nextId)) (by intro _ _ _ _ e; injection e)
       have b2 := b.log (.sent s.ninst (allocId s.M s.nextId)) (by intro i; rfl)
       have c2 := c'.log (.sent s.ninst (allocId s.M s.nextId)) (by intro _ _ _ _ e; injection e)
       have d2 := d.log (.sent s.ninst (allocId s.M s.nextId)) (by intro _ _ e; injection e) (by intro _ _ _ e; injection e)
       cases ha : s.armed with
-      | true => exact ⟨a, b2, c2, d2⟩
+      | true => exact ⟨a, b2, c2, d2, f⟩
       | false =>
         exact ⟨a, b2.log _ (by intro i; rfl), c2.log _ (by intro _ _ _ _ e; injection e),
-          d2.log _ (by intro _ _ e; injection e) (by intro _ _ _ e; injection e)⟩
+          d2.log _ (by intro _ _ e; injection e) (by intro _ _ _ e; injection e),
+          f.log _ (by intro _ _ _ _ e; injection e)⟩
     | false =>
       rw [issue_req_fail s c hf]
       have b := ((h.b.log (.issued s.ninst (allocId s.M s.nextId) s.now) (by intro i; rfl)).log
@@ -701,11 +685,14 @@ theorem issue_WF {s : State} (h : WF s) (r o c : Bool) (hc : (issue s r o c).col
       have c' := ((h.c.log (.issued s.ninst (allocId s.M s.nextId) s.now) (by intro _ _ _ _ e; injection e)).log
         (.done s.ninst (allocId s.M s.nextId)) (by intro _ _ _ _ e; injection e))
       have d := h.d.serFail h.b.instLt (allocId s.M s.nextId) s.now
+      have f := (h.f.log (.issued s.ninst (allocId s.M s.nextId) s.now) (by intro _ _ _ _ e; injection e)).log
+        (.done s.ninst (allocId s.M s.nextId)) (by intro _ _ _ _ e; injection e)
       cases c with
-      | false => exact ⟨h.a, b.skip, c', d⟩
+      | false => exact ⟨h.a, b.skip, c', d, f⟩
       | true =>
         exact ⟨h.a, b.cbFreshInst _ _ _, c'.cb _ _ _ _ ⟨s.now, by simp, by intro e; cases e⟩,
-          d.log _ (by intro _ _ e; injection e) (by intro _ _ _ e; injection e)⟩
+          d.log _ (by intro _ _ e; injection e) (by intro _ _ _ e; injection e),
+          f.cb _ _ _ _ (List.mem_cons_self ..)⟩
 
 theorem response_busy {s : State} (h : free s = false) (id : Nat) (p : Payload) : response s id p = s := by
   simp [response, h]
@@ -716,8 +703,10 @@ theorem response_miss {s : State} (h : free s = true) {id : Nat} (hf : find id s
 
 theorem response_cb {s : State} (h : free s = true) {id : Nat} {w : Wait} (hf : find id s.pending = some w)
     (hc : w.hasCb = true) (p : Payload) :
-    response s id p = { s with base := .inResp id, log := .cb w.inst id (decode p) s.now :: s.log } := by
-  simp [response, h, hf, hc]
+    response s id p =
+      { s with pending := del id s.pending, base := .inResp w.inst, nest := s.nest,
+               log := .cb w.inst id (decode p) s.now :: .done w.inst id :: s.log } := by
+  simp [response, h, hf, hc, finish_eq hf]
 
 theorem response_nocb {s : State} (h : free s = true) {id : Nat} {w : Wait} (hf : find id s.pending = some w)
     (hc : w.hasCb = false) (p : Payload) : response s id p = finish s id := by
@@ -733,18 +722,16 @@ theorem response_WF {s : State} (h : WF s) (id : Nat) (p : Payload) : WF (respon
     | none =>
       rw [response_miss hfree hf]
       exact WF.of_idle hb ⟨h0.a, h0.b.log _ (by intro i; rfl), h0.c.log _ (by intro _ _ _ _ e; injection e),
-        h0.d.log _ (by intro _ _ e; injection e) (by intro _ _ _ e; injection e)⟩
+        h0.d.log _ (by intro _ _ e; injection e) (by intro _ _ _ e; injection e),
+        h0.f.log _ (by intro _ _ _ _ e; injection e)⟩
     | some w =>
-      have hm := find_some_mem hf
       cases hcb : w.hasCb with
       | true =>
         rw [response_cb hfree hf hcb]
-        exact ⟨h0.a.runOf (mem_keys.2 ⟨w, hm⟩), h0.b.cbPending h0.a.nodup hm _ _,
-          h0.c.cbPending hm _ _ (fun e => absurd e (decode_ne_timeout p)),
-          h0.d.log _ (by intro _ _ e; injection e) (by intro _ _ _ e; injection e)⟩
+        exact h0.complete hf (by simp) _ _ _ _ (fun e => absurd e (decode_ne_timeout p))
       | false =>
         rw [response_nocb hfree hf hcb]
-        exact WF.of_idle (by rw [finish_base]; exact hb) (h0.finish hf (by simp) (Or.inl rfl))
+        exact WF.of_idle (by rw [finish_base]; exact hb) (h0.finish hf (by simp))
 
 theorem tick_WF {s : State} (h : WF s) (order : List Nat) (hc : (tick s order).collided = false) :
     WF (tick s order) := by
@@ -759,12 +746,13 @@ theorem tick_WF {s : State} (h : WF s) (order : List Nat) (hc : (tick s order).c
     · simp only [he, ↓reduceIte]
       have hp : s.pending = [] := List.isEmpty_iff.1 he
       refine WF.of_idle hb ⟨?_, h0.b.log _ (by intro i; rfl), h0.c.log _ (by intro _ _ _ _ e; injection e),
-        h0.d.log _ (by intro _ _ e; injection e) (by intro _ _ _ e; injection e)⟩
-      refine ⟨h0.a.nodup, fun hne => absurd hp hne, h0.a.runKey, h0.a.restKeys, h0.a.restNodup, h0.a.runRest⟩
+        h0.d.log _ (by intro _ _ e; injection e) (by intro _ _ _ e; injection e),
+        h0.f.log _ (by intro _ _ _ _ e; injection e)⟩
+      exact ⟨h0.a.nodup, fun hne => absurd hp hne, h0.a.restKeys, h0.a.restNodup⟩
     · simp only [he, Bool.false_eq_true, ↓reduceIte] at hc ⊢
       have hperm := pickOrder_perm order (dueIds s.now s.pending)
       apply tickLoop_WF _ _ _ hc
-      refine ⟨h0.a.setRest ?_ ?_, h0.b, h0.c.setRest h0.a.nodup _ ?_, h0.d⟩
+      refine ⟨h0.a.setRest ?_ ?_, h0.b, h0.c.setRest h0.a.nodup _ ?_, h0.d, h0.f⟩
       · intro r hr
         obtain ⟨w, hw, _⟩ := mem_dueIds.1 (hperm.mem_iff.1 hr)
         exact mem_keys.2 ⟨w, hw⟩
@@ -774,23 +762,26 @@ theorem tick_WF {s : State} (h : WF s) (order : List Nat) (hc : (tick s order).c
 theorem ret_WF {s : State} (h : WF s) (hc : (ret s).collided = false) : WF (ret s) := by
   unfold ret at hc ⊢
   by_cases hn : s.nest > 0
-  · simp only [hn, ↓reduceIte]; exact ⟨h.a, h.b, h.c, h.d⟩
+  · simp only [hn, ↓reduceIte]; exact ⟨h.a, h.b, h.c, h.d, h.f⟩
   · simp only [hn, ↓reduceIte] at hc ⊢
     cases hb : s.base with
     | idle => exact h
-    | inResp id =>
+    | inResp i =>
+      have h1 := h.toNil
+      exact WF.of_idle rfl ⟨h1.a, h1.b, h1.c, h1.d, h1.f⟩
+    | inTick i rest =>
       simp only [hb] at hc ⊢
-      have h1 : WFx s (some id) [] := by unfold WF running restOf at h; rw [hb] at h; exact h
-      obtain ⟨w, hw⟩ := mem_keys.1 (h1.a.runKey id rfl)
-      have hf := find_some_of_mem h1.a.nodup hw
-      have h2 := h1.finish hf (by simp) (Or.inr rfl)
-      exact WF.of_idle rfl ⟨h2.a, h2.b, h2.c, h2.d⟩
-    | inTick id rest =>
-      simp only [hb] at hc ⊢
-      have h1 : WFx s (some id) rest := by unfold WF running restOf at h; rw [hb] at h; exact h
-      obtain ⟨w, hw⟩ := mem_keys.1 (h1.a.runKey id rfl)
-      have hf := find_some_of_mem h1.a.nodup hw
-      exact tickLoop_WF _ _ (h1.finish hf (h1.a.runRest id rfl) (Or.inr rfl)) hc
+      have h1 : WFx s rest := by unfold WF restOf at h; rw [hb] at h; exact h
+      exact tickLoop_WF _ _ h1 hc
+
+theorem panicScan_WF {s : State} (h : WF s) : WF (panicScan s) := by
+  unfold panicScan
+  cases hb : s.base with
+  | idle => exact h
+  | inResp i => exact h
+  | inTick i rest =>
+    have h1 := h.toNil
+    exact WF.of_idle rfl ⟨h1.a, h1.b, h1.c, h1.d, h1.f⟩
 
 theorem step_WF {s : State} (h : WF s) (op : Op) (hc : (step s op).collided = false) : WF (step s op) := by
   cases op with
@@ -798,18 +789,16 @@ theorem step_WF {s : State} (h : WF s) (op : Op) (hc : (step s op).collided = fa
   | response id p => exact response_WF h id p
   | tick order => exact tick_WF h order hc
   | ret => exact ret_WF h hc
-  | advance dt => exact ⟨h.a, h.b, h.c.now _ (Nat.le_add_right ..), h.d⟩
-
+  | panic => exact panicScan_WF h
+  | advance dt => exact ⟨h.a, h.b, h.c.now _ (Nat.le_add_right ..), h.d, h.f⟩
 
 
 /-! ### reachability -/
 
 theorem init_WF (M n0 : Nat) : WF (init M n0) := by
-  refine WF.of_idle rfl ⟨?_, ?_, ?_, ?_⟩
-  · refine ⟨List.nodup_nil, fun h => absurd rfl h, ?_, ?_, List.nodup_nil, ?_⟩
-    · intro _ h; cases h
-    · intro _ h; cases h
-    · intro _ h; cases h
+  refine WF.of_idle rfl ⟨?_, ?_, ?_, ?_, ?_⟩
+  · refine ⟨List.nodup_nil, fun h => absurd rfl h, ?_, List.nodup_nil⟩
+    intro _ h; cases h
   · refine ⟨?_, ?_, ?_, ?_, ?_⟩
     · intro _ _ h; cases h
     · intro _ _ _ _ h; cases h
@@ -827,6 +816,8 @@ theorem init_WF (M n0 : Nat) : WF (init M n0) := by
       constructor
       · intro _ h; cases h
       · intro _ _ h; cases h
+  · constructor
+    intro _ _ _ _ h; cases h
 
 theorem tickLoop_collided : ∀ (rest : List Nat) (s : State), s.collided = true → (tickLoop s rest).collided = true := by
   intro rest
@@ -840,6 +831,9 @@ theorem tickLoop_collided : ∀ (rest : List Nat) (s : State), s.collided = true
       cases hcb : w.hasCb with
       | true => rw [tickLoop_cons_cb hf hcb]; exact h
       | false => rw [tickLoop_cons_nocb hf hcb]; exact ih _ (by rw [finish_collided]; exact h)
+
+theorem panicScan_collided (s : State) : (panicScan s).collided = s.collided := by
+  unfold panicScan; split <;> rfl
 
 theorem step_collided {s : State} (op : Op) (h : s.collided = true) : (step s op).collided = true := by
   cases op with
@@ -871,8 +865,9 @@ theorem step_collided {s : State} (op : Op) (h : s.collided = true) : (step s op
     · exact h
     · split
       · exact h
-      · rw [finish_collided]; exact h
-      · exact tickLoop_collided _ _ (by rw [finish_collided]; exact h)
+      · exact h
+      · exact tickLoop_collided _ _ h
+  | panic => simp only [step]; rw [panicScan_collided]; exact h
   | advance dt => exact h
 
 theorem run_collided : ∀ (ops : List Op) (s : State), s.collided = true → (run s ops).collided = true := by
@@ -940,8 +935,9 @@ theorem tickLoop_mem : ∀ (rest : List Nat) (s : State) (e : Ev), e ∈ (tickLo
       | true =>
         rw [tickLoop_cons_cb hf hcb] at h
         simp only [List.mem_cons] at h
-        rcases h with h | h
+        rcases h with h | h | h
         · exact Or.inr (Or.inr ⟨_, _, h⟩)
+        · exact Or.inr (Or.inl ⟨_, _, h⟩)
         · exact Or.inl h
       | false =>
         rw [tickLoop_cons_nocb hf hcb] at h
@@ -964,7 +960,7 @@ theorem tickLoop_log_mono : ∀ (rest : List Nat) (s : State) (e : Ev), e ∈ s.
     | none => rw [tickLoop_cons_none hf]; exact h
     | some w =>
       cases hcb : w.hasCb with
-      | true => rw [tickLoop_cons_cb hf hcb]; exact List.mem_cons_of_mem _ h
+      | true => rw [tickLoop_cons_cb hf hcb]; exact List.mem_cons_of_mem _ (List.mem_cons_of_mem _ h)
       | false => rw [tickLoop_cons_nocb hf hcb]; exact ih _ e (finish_log_mono h)
 
 theorem step_log_mono {s : State} (op : Op) {e : Ev} (h : e ∈ s.log) : e ∈ (step s op).log := by
@@ -984,7 +980,7 @@ theorem step_log_mono {s : State} (op : Op) {e : Ev} (h : e ∈ s.log) : e ∈ (
       | none => rw [response_miss hfree hf]; exact List.mem_cons_of_mem _ h
       | some w =>
         cases hcb : w.hasCb with
-        | true => rw [response_cb hfree hf hcb]; exact List.mem_cons_of_mem _ h
+        | true => rw [response_cb hfree hf hcb]; exact List.mem_cons_of_mem _ (List.mem_cons_of_mem _ h)
         | false => rw [response_nocb hfree hf hcb]; exact finish_log_mono h
   | tick order =>
     simp only [step, tick]
@@ -999,8 +995,9 @@ theorem step_log_mono {s : State} (op : Op) {e : Ev} (h : e ∈ s.log) : e ∈ (
     · exact h
     · split
       · exact h
-      · exact finish_log_mono h
-      · exact tickLoop_log_mono _ _ _ (finish_log_mono h)
+      · exact h
+      · exact tickLoop_log_mono _ _ _ h
+  | panic => simp only [step, panicScan]; split <;> exact h
   | advance dt => exact h
 
 theorem run_log_mono : ∀ (ops : List Op) (s : State) (e : Ev), e ∈ s.log → e ∈ (run s ops).log := by
@@ -1046,7 +1043,7 @@ theorem step_new_cb {s : State} {op : Op} {i id : Nat} {o : Outcome} {t : Nat}
         cases hcb : w.hasCb with
         | true =>
           rw [response_cb hfree hf hcb] at hin
-          simp only [List.mem_cons] at hin
+          simp only [List.mem_cons, reduceCtorEq, false_or] at hin
           rcases hin with hin | hin
           · injection hin with e1 e2 e3 e4
             subst e1 e2 e3 e4
@@ -1074,17 +1071,15 @@ theorem step_new_cb {s : State} {op : Op} {i id : Nat} {o : Outcome} {t : Nat}
     · exact absurd hin hnew
     · split at hin
       · exact absurd hin hnew
-      · rcases finish_mem hin with h | ⟨_, h⟩
+      · exact absurd hin hnew
+      · rcases tickLoop_mem _ _ _ hin with h | ⟨_, _, h⟩ | ⟨_, _, h⟩
         · exact absurd h hnew
         · cases h
-      · rcases tickLoop_mem _ _ _ hin with h | ⟨_, _, h⟩ | ⟨_, _, h⟩
-        · rcases finish_mem h with h | ⟨_, h⟩
-          · exact absurd h hnew
-          · cases h
-        · cases h
         · injection h with _ _ e3 e4
-          have : ∀ k, (finish s k).now = s.now := by intro k; unfold finish; split <;> rfl
-          exact Or.inl (Or.inr ⟨rfl, e3, by rw [e4, this]⟩)
+          exact Or.inl (Or.inr ⟨rfl, e3, e4⟩)
+  | panic =>
+    simp only [step, panicScan] at hin
+    split at hin <;> exact absurd hin hnew
   | advance dt => exact absurd hin hnew
 
 
@@ -1194,7 +1189,7 @@ theorem tickLoop_sub : ∀ (rest : List Nat) (s : State), (∀ x, x ∈ (tickLoo
     | none => rw [tickLoop_cons_none hf]; exact ⟨fun _ h => h, rfl, rfl, rfl⟩
     | some w =>
       cases hcb : w.hasCb with
-      | true => rw [tickLoop_cons_cb hf hcb]; exact ⟨fun _ h => h, rfl, rfl, rfl⟩
+      | true => rw [tickLoop_cons_cb hf hcb]; exact ⟨fun _ h => (mem_del.1 h).1, rfl, rfl, rfl⟩
       | false =>
         rw [tickLoop_cons_nocb hf hcb]
         obtain ⟨a, b, c, d⟩ := ih (finish s id)
@@ -1233,7 +1228,7 @@ theorem step_AllocInv {s : State} (hM : 1 ≤ s.M) (h : AllocInv s) (op : Op) :
       | none => rw [response_miss hfree hf]; exact ⟨h, rfl⟩
       | some w =>
         cases hcb : w.hasCb with
-        | true => rw [response_cb hfree hf hcb]; exact ⟨h, rfl⟩
+        | true => rw [response_cb hfree hf hcb]; exact ⟨Qe.sub h (fun _ hx => (mem_del.1 hx).1), rfl⟩
         | false =>
           rw [response_nocb hfree hf hcb]
           obtain ⟨a, b, c⟩ := finish_alloc s id
@@ -1254,16 +1249,12 @@ theorem step_AllocInv {s : State} (hM : 1 ≤ s.M) (h : AllocInv s) (op : Op) :
     · exact ⟨h, rfl⟩
     · split
       · exact ⟨h, rfl⟩
-      · rename_i id _
-        obtain ⟨a, b, c⟩ := finish_alloc s id
-        unfold AllocInv
-        simp only [a, b, c]
-        exact ⟨Qe.sub h (finish_sub s id), trivial⟩
-      · rename_i id rest _
-        obtain ⟨a, b, c, d⟩ := tickLoop_sub rest (finish s id)
-        obtain ⟨b', c', d'⟩ := finish_alloc s id
-        unfold AllocInv; rw [b, c, d, b', c', d']
-        exact ⟨Qe.sub h (fun x hx => finish_sub s id x (a x hx)), rfl⟩
+      · exact ⟨h, rfl⟩
+      · rename_i i rest _
+        obtain ⟨a, b, c, d⟩ := tickLoop_sub rest s
+        unfold AllocInv; rw [b, c, d]
+        exact ⟨Qe.sub h a, rfl⟩
+  | panic => simp only [step, panicScan]; split <;> exact ⟨h, rfl⟩
   | advance dt => exact ⟨h, rfl⟩
 
 theorem run_AllocInv : ∀ (ops : List Op) (s : State), 1 ≤ s.M → AllocInv s → AllocInv (run s ops) ∧ (run s ops).M = s.M := by
@@ -1283,7 +1274,7 @@ theorem run_AllocInv : ∀ (ops : List Op) (s : State), 1 ≤ s.M → AllocInv s
 
 /-- the entry `(id, w)` has been dealt with by the scan -/
 def Handled (s : State) (id : Nat) (w : Wait) : Prop :=
-  (w.hasCb = true → ∃ t, Ev.cb w.inst id .timeout t ∈ s.log) ∧ (w.hasCb = false → Ev.done w.inst id ∈ s.log)
+  (w.hasCb = true → ∃ t, Ev.cb w.inst id .timeout t ∈ s.log) ∧ Ev.done w.inst id ∈ s.log
 
 /-- the scan in progress still has `(id, w)` on its list -/
 def Sched (s : State) (id : Nat) (w : Wait) : Prop :=
@@ -1291,7 +1282,7 @@ def Sched (s : State) (id : Nat) (w : Wait) : Prop :=
 
 theorem Handled.mono {s s' : State} {id : Nat} {w : Wait} (h : Handled s id w)
     (hm : ∀ e, e ∈ s.log → e ∈ s'.log) : Handled s' id w :=
-  ⟨fun hc => let ⟨t, ht⟩ := h.1 hc; ⟨t, hm _ ht⟩, fun hc => hm _ (h.2 hc)⟩
+  ⟨fun hc => let ⟨t, ht⟩ := h.1 hc; ⟨t, hm _ ht⟩, hm _ h.2⟩
 
 theorem finish_mem_ne {s : State} {id r : Nat} {w : Wait} (hm : (id, w) ∈ s.pending) (hne : id ≠ r) :
     (id, w) ∈ (finish s r).pending := by
@@ -1325,11 +1316,10 @@ theorem tickLoop_progress : ∀ (rest : List Nat) (s : State) (id : Nat) (w : Wa
         cases hcb : w'.hasCb with
         | true =>
           rw [tickLoop_cons_cb hf hcb]
-          refine Or.inl ⟨fun _ => ⟨_, List.mem_cons_self ..⟩, fun h => ?_⟩
-          rw [hcb] at h; cases h
+          exact Or.inl ⟨fun _ => ⟨_, List.mem_cons_self ..⟩, List.mem_cons_of_mem _ (List.mem_cons_self ..)⟩
         | false =>
           rw [tickLoop_cons_nocb hf hcb]
-          refine Or.inl ⟨fun h => ?_, fun _ => ?_⟩
+          refine Or.inl ⟨fun h => ?_, ?_⟩
           · rw [hcb] at h; cases h
           apply tickLoop_log_mono
           rw [finish_eq hf]
@@ -1342,12 +1332,12 @@ theorem tickLoop_progress : ∀ (rest : List Nat) (s : State) (id : Nat) (w : Wa
         cases hcb : w'.hasCb with
         | true =>
           rw [tickLoop_cons_cb hf hcb]
-          exact Or.inr ⟨r, rest, rfl, hin', hm⟩
+          exact Or.inr ⟨w'.inst, rest, rfl, hin', mem_del.2 ⟨hm, e⟩⟩
         | false =>
           rw [tickLoop_cons_nocb hf hcb] at hc ⊢
           exact ih _ id w (finish_nodup r hn) hin' (finish_mem_ne hm e) hc
 
-theorem step_progress {s : State} (hwf : WF s) {id : Nat} {w : Wait} (op : Op)
+theorem step_progress {s : State} (hwf : WF s) {id : Nat} {w : Wait} (op : Op) (hnp : op ≠ .panic)
     (h : Handled s id w ∨ Sched s id w) (hc : (step s op).collided = false) :
     Handled (step s op) id w ∨ Sched (step s op) id w := by
   rcases h with h | ⟨cur, rest, hb, hin, hm⟩
@@ -1373,27 +1363,27 @@ theorem step_progress {s : State} (hwf : WF s) {id : Nat} {w : Wait} (op : Op)
       have : tick s order = s := by simp [tick, hnf]
       simp only [step]; rw [this]; exact Or.inr ⟨cur, rest, hb, hin, hm⟩
     | advance dt => exact Or.inr ⟨cur, rest, hb, hin, hm⟩
+    | panic => exact absurd rfl hnp
     | ret =>
       simp only [step] at hc ⊢
       unfold ret at hc ⊢
       by_cases hn : s.nest > 0
       · simp only [hn, ↓reduceIte]; exact Or.inr ⟨cur, rest, hb, hin, hm⟩
       · simp only [hn, ↓reduceIte, hb] at hc ⊢
-        have h1 : WFx s (some cur) rest := by unfold WF running restOf at hwf; rw [hb] at hwf; exact hwf
-        have hne : id ≠ cur := by intro e; subst e; exact h1.a.runRest _ rfl hin
-        exact tickLoop_progress rest _ id w (finish_nodup cur h1.a.nodup) hin (finish_mem_ne hm hne) hc
+        exact tickLoop_progress rest _ id w hwf.a.nodup hin hm hc
 
-theorem run_progress : ∀ (ops : List Op) (s : State) (id : Nat) (w : Wait), WF s →
+theorem run_progress : ∀ (ops : List Op) (s : State) (id : Nat) (w : Wait), WF s → (∀ op, op ∈ ops → op ≠ .panic) →
     (Handled s id w ∨ Sched s id w) → (run s ops).collided = false →
     Handled (run s ops) id w ∨ Sched (run s ops) id w := by
   intro ops
   induction ops with
-  | nil => intro s id w _ h _; exact h
+  | nil => intro s id w _ _ h _; exact h
   | cons op ops ih =>
-    intro s id w hwf h hc
+    intro s id w hwf hnp h hc
     rw [run_cons] at hc ⊢
     have hc1 := not_collided_of_run hc
-    exact ih _ id w (step_WF hwf op hc1) (step_progress hwf op h hc1) hc
+    exact ih _ id w (step_WF hwf op hc1) (fun o ho => hnp o (List.mem_cons_of_mem _ ho))
+      (step_progress hwf op (hnp op (List.mem_cons_self ..)) h hc1) hc
 
 theorem tick_progress {s : State} (hwf : WF s) (hfree : free s = true) (harm : s.armed = true) {id : Nat} {w : Wait}
     (hm : (id, w) ∈ s.pending) (hdue : w.deadline < s.now) (order : List Nat)
@@ -1411,6 +1401,47 @@ theorem tick_progress {s : State} (hwf : WF s) (hfree : free s = true) (harm : s
   apply tickLoop_progress _ _ id w h0.a.nodup _ hm hc
   exact (pickOrder_perm _ _).mem_iff.2 (mem_dueIds.2 ⟨w, hm, hdue⟩)
 
+/-- a scan that finds something due removes at least one entry, whatever its callback does afterwards -/
+theorem length_del_lt {id : Nat} {p : List (Nat × Wait)} {w : Wait} (hm : (id, w) ∈ p) : (del id p).length < p.length := by
+  unfold del
+  induction p with
+  | nil => cases hm
+  | cons a t ih =>
+    simp only [List.mem_cons] at hm
+    simp only [List.filter_cons]
+    rcases hm with hm | hm
+    · subst hm
+      simp only [bne_self_eq_false, Bool.false_eq_true, ↓reduceIte, List.length_cons]
+      exact Nat.lt_succ_of_le (List.length_filter_le _ _)
+    · split
+      · simp only [List.length_cons]; exact Nat.succ_lt_succ (ih hm)
+      · simp only [List.length_cons]; exact Nat.lt_succ_of_lt (ih hm)
+
+theorem tickLoop_length_le : ∀ (rest : List Nat) (s : State), (tickLoop s rest).pending.length ≤ s.pending.length := by
+  intro rest
+  induction rest with
+  | nil => intro s; exact Nat.le_refl _
+  | cons id rest ih =>
+    intro s
+    cases hf : find id s.pending with
+    | none => rw [tickLoop_cons_none hf]; exact Nat.le_refl _
+    | some w =>
+      cases hcb : w.hasCb with
+      | true => rw [tickLoop_cons_cb hf hcb]; exact Nat.le_of_lt (length_del_lt (find_some_mem hf))
+      | false =>
+        rw [tickLoop_cons_nocb hf hcb]
+        refine Nat.le_trans (ih _) ?_
+        rw [finish_eq hf]; exact Nat.le_of_lt (length_del_lt (find_some_mem hf))
+
+theorem tickLoop_cons_length_lt {s : State} {id : Nat} {rest : List Nat} {w : Wait} (hf : find id s.pending = some w) :
+    (tickLoop s (id :: rest)).pending.length < s.pending.length := by
+  have hlt := length_del_lt (find_some_mem hf)
+  cases hcb : w.hasCb with
+  | true => rw [tickLoop_cons_cb hf hcb]; exact hlt
+  | false =>
+    rw [tickLoop_cons_nocb hf hcb]
+    refine Nat.lt_of_le_of_lt (tickLoop_length_le _ _) ?_
+    rw [finish_eq hf]; exact hlt
 
 /-! ### the id guard, stated op by op, implies the `collided` flag stays down -/
 
@@ -1490,13 +1521,11 @@ theorem step_no_collide {s : State} (hwf : WF s) (hc : s.collided = false) (op :
     · exact hc
     · split
       · exact hc
-      · rw [finish_collided]; exact hc
-      · rename_i id rest hb
-        have h1 : WFx s (some id) rest := by unfold WF running restOf at hwf; rw [hb] at hwf; exact hwf
-        obtain ⟨w, hw⟩ := mem_keys.1 (h1.a.runKey id rfl)
-        have hf := find_some_of_mem h1.a.nodup hw
-        have h2 := h1.finish hf (h1.a.runRest id rfl) (Or.inr rfl)
-        exact tickLoop_no_collide _ _ h2.a.restKeys h2.a.restNodup (by rw [finish_collided]; exact hc)
+      · exact hc
+      · rename_i i rest hb
+        have h1 : WFx s rest := by unfold WF restOf at hwf; rw [hb] at hwf; exact hwf
+        exact tickLoop_no_collide _ _ h1.a.restKeys h1.a.restNodup hc
+  | panic => simp only [step]; rw [panicScan_collided]; exact hc
   | advance dt => exact hc
 
 theorem guarded_not_collided : ∀ (ops : List Op) (s : State), WF s → s.collided = false → Guarded s ops →
